@@ -11,6 +11,7 @@ from .. import model as M
 from ..core import Report
 from ..interp import Raised, TV
 from . import c15
+from . import common
 from .common import TRUSTED_WIRE, cfg_class, require_no_errors, wire_results
 
 META = {
@@ -42,53 +43,10 @@ def run(rep: Report) -> None:
     if not require_no_errors(rep, cks):
         return
     by = {ck.cfg: ck for ck in cks}
-    n = 0
-    for ck in cks:
-        cfg = ck.cfg
-        if cfg.impl != "numpy":
-            continue
-        other = by.get(replace(cfg, impl="casadi"))
-        if other is None:
-            continue
-        n += 1
-        ok, detail, where = True, "", "Network.step"
-        for p in ck.paths:
-            rk = [e for e in p.events if e[0] in ("rank-store", "rank-index", "rank-reduce")]
-            if rk:
-                ok, detail, where = False, f"NumPy engine: {rk[0][2]}", rk[0][1]
-                break
-            # the CasADi path whose decisions are implied by this NumPy path's decisions
-            pa = {(repr(a[0]), a[1]) for a in p.assumptions}
-            cands = [x for x in other.paths if {(repr(a[0]), a[1]) for a in x.assumptions} <= pa]
-            q = max(cands, key=lambda x: len(x.assumptions)) if cands else None
-            if q is None:
-                ok, detail = False, f"the NumPy run takes python-level branches {p.path} incompatible with the CasADi run"
-                break
-            if p.raised or q.raised:
-                if (p.raised is None) != (q.raised is None):
-                    ok = False
-                    detail = f"one engine raises ({(p.raised or q.raised)[0]}) where the other steps"
-                    where = (p.raised or q.raised)[1]
-                continue
-            nz = M.make_normalizer(cfg, with_domain=False)
-            env = E.Env(p.n1)
-            mapping, _ = M.assumption_substitution(p.assumptions, nz)
-            M.apply_assumptions(nz, p.assumptions, env, mapping)
-            for role, vs in q.outputs.items():
-                for var, t in vs.items():
-                    got = p.outputs.get(role, {}).get(var)
-                    if got is None or not E.is_term(got) or not E.is_term(t):
-                        ok, detail = False, f"no next {var} of {role} under the NumPy engine"
-                        continue
-                    try:
-                        mm = M.compare(got, t, env, nz, mapping)
-                    except E.ShapeError as ex:
-                        mm = [("shape", str(ex), "")]
-                    if mm:
-                        ok = False
-                        detail = (f"next {var} of {role} at {mm[0][0]}: numpy = {mm[0][1][:300]} | casadi = {mm[0][2][:300]}")
-        rep.check(ok, "step-equal-under-both-engines", cfg.label(), where, detail,
-                  key=f"step-eq|{cfg_class(cfg)}|{detail[:50]}")
+    items = [ck.cfg for ck in cks if ck.cfg.impl == "numpy" and replace(ck.cfg, impl="casadi") in by]
+    verdicts = common.pmap(_step_equal_one, items, shared={"by": by})
+    common.apply_verdicts(rep, verdicts)
+    n = len(items)
     rep.floor("configurations compared across engines", n, 500)
 
     # (c), (d) pass-through of to_function on the stepped concrete network
@@ -168,6 +126,50 @@ def run(rep: Report) -> None:
                   f"{name} imports {bad}: numeric work outside the engine interface cannot be the same on both engines",
                   key=f"layer|{name}")
     rep.floor("modules outside engines/", nmods, 8)
+
+
+
+def _step_equal_one(cfg):
+    by = common.SHARED["by"]
+    ck = by[cfg]
+    other = by[replace(cfg, impl="casadi")]
+    ok, detail, where = True, "", "Network.step"
+    for p in ck.paths:
+        rk = [e for e in p.events if e[0] in ("rank-store", "rank-index", "rank-reduce")]
+        if rk:
+            ok, detail, where = False, f"NumPy engine: {rk[0][2]}", rk[0][1]
+            break
+        pa = {(repr(a[0]), a[1]) for a in p.assumptions}
+        cands = [x for x in other.paths if {(repr(a[0]), a[1]) for a in x.assumptions} <= pa]
+        q = max(cands, key=lambda x: len(x.assumptions)) if cands else None
+        if q is None:
+            ok, detail = False, f"the NumPy run takes python-level branches {p.path} incompatible with the CasADi run"
+            break
+        if p.raised or q.raised:
+            if (p.raised is None) != (q.raised is None):
+                ok = False
+                detail = f"one engine raises ({(p.raised or q.raised)[0]}) where the other steps"
+                where = (p.raised or q.raised)[1]
+            continue
+        nz = M.make_normalizer(cfg, with_domain=False)
+        env = E.Env(p.n1)
+        mapping, _ = M.assumption_substitution(p.assumptions, nz)
+        M.apply_assumptions(nz, p.assumptions, env, mapping)
+        for role, vs in q.outputs.items():
+            for var, t in vs.items():
+                got = p.outputs.get(role, {}).get(var)
+                if got is None or not E.is_term(got) or not E.is_term(t):
+                    ok, detail = False, f"no next {var} of {role} under the NumPy engine"
+                    continue
+                try:
+                    mm = M.compare(got, t, env, nz, mapping)
+                except E.ShapeError as ex:
+                    mm = [("shape", str(ex), "")]
+                if mm:
+                    ok = False
+                    detail = (f"next {var} of {role} at {mm[0][0]}: numpy = {mm[0][1][:300]} | casadi = {mm[0][2][:300]}")
+    return (ok, "step-equal-under-both-engines", cfg.label(), where, detail,
+            f"step-eq|{cfg_class(cfg)}|{detail[:50]}")
 
 
 def _first_index(seq, var):
